@@ -351,13 +351,13 @@ func gen(g *hx.Gen) {
 	}
 	dens := [][2]int{{0, 1}, {1, 20}, {3, 10}, {1, 2}, {1, 1}}
 	// random graphs n <= 40 at the five densities
-	for i := 0; i < g.Pick(600, 20000); i++ {
+	for i := 0; i < g.Pick(350, 20000); i++ {
 		n := r.Range(2, 40)
 		d := dens[r.Intn(len(dens))]
 		graphCase("G", anyRep(), n, randGraph(r, n, d[0], d[1]))
 	}
 	// 17 <= n <= 32: sparse6 pairs of exactly 6 bits, every stream ends on a byte boundary
-	for i := 0; i < g.Pick(300, 8000); i++ {
+	for i := 0; i < g.Pick(180, 8000); i++ {
 		n := r.Range(17, 32)
 		d := dens[1+r.Intn(4)]
 		graphCase("G", anyRep(), n, randGraph(r, n, d[0], d[1]))
@@ -368,7 +368,9 @@ func gen(g *hx.Gen) {
 			d := dens[r.Intn(len(dens))]
 			graphCase("G", anyRep(), n, randGraph(r, n, d[0], d[1]))
 		}
-		both(n, nil)
+		for _, rep := range []string{"d", "s", "w", "vc", "rs", "x"} {
+			graphCase("G", rep, n, nil)
+		}
 	}
 	if g.Thorough() {
 		for _, n := range []int{128, 129, 255, 256, 300} {
